@@ -52,6 +52,14 @@ pub enum StringEncoding {
     Embstr,
 }
 
+/// The instant `duration` from now; a duration too long to represent is capped (a century),
+/// so an absurd TTL or timeout cannot overflow the clock arithmetic
+pub fn instant_after(duration: Duration) -> Instant {
+    let now = Instant::now();
+    now.checked_add(duration)
+        .unwrap_or_else(|| now + Duration::from_secs(100 * 365 * 24 * 3600))
+}
+
 /// Metadata for stored values
 #[derive(Debug, Clone)]
 pub struct ValueMetadata {
@@ -164,7 +172,7 @@ impl ValueMetadata {
     pub fn with_expiration(expires_in: Duration) -> Self {
         let now = Instant::now();
         ValueMetadata {
-            expires_at: Some(now + expires_in),
+            expires_at: Some(instant_after(expires_in)),
             created_at: now,
             last_accessed: now,
             encoding: StringEncoding::Raw,
@@ -185,7 +193,7 @@ impl ValueMetadata {
     
     /// Set expiration time
     pub fn set_expiration(&mut self, expires_in: Duration) {
-        self.expires_at = Some(Instant::now() + expires_in);
+        self.expires_at = Some(instant_after(expires_in));
     }
     
     /// Clear expiration
